@@ -158,6 +158,12 @@ def run_portfolio(text, timeout=20, solvers=None, want_model=True, need=1, use_c
             agree.setdefault(per[s]["status"], []).append(s)
         if any(len(v) >= need for v in agree.values()):
             break
+        if definite and need > 1:
+            # thorough tier: a second verdict is awaited for a while proportional to what the first one took
+            # (at least 3 s), not for the whole timeout -- the slower solvers routinely need 10-100x on these queries
+            t_first = per[definite[0]]["secs"]
+            if time.time() - t0 > t_first + max(3.0, 4 * t_first) * slack():
+                break
         # a sat answer with a model is final for failure reporting
         if "sat" in agree:
             break
